@@ -153,6 +153,7 @@ class SurfaceMesh(Mesh):
     def _compute_interior_boundary_vertices(self):
         self._boundary_vertices = set()
         self._is_vertex_on_border = self.vertices.create_attribute("border", bool)
+        self._is_vertex_on_border.clear() # create_attribute may hand back an attribute that already carries this name (see config.display_duplicate_attribute_warning)
         for e in self.boundary_edges:
             a,b = self.edges[e]
             self._is_vertex_on_border[a] = True
